@@ -226,37 +226,92 @@ Proof.
   rewrite has_rr_mk. destruct (negb (has_in (look b k) t d)); cbn [map]; rewrite IH; reflexivity.
 Qed.
 
-Lemma rest_wf_look : forall z k e, rest_wf z -> look z k = Some e -> In (k, e) z.
+(* well-formedness without the restrictions on the RRset type (singleton types, CNAME kind) *)
+Definition entry_wf0 (ke : key * entry) : Prop :=
+  let '((n, t, c), (ttl, ds)) := ke in
+  0 <= n /\ t <> tSOA /\ ttl_ok ttl /\ ds <> [] /\ ssorted ds.
+Definition rest_wf0 (z : zone) : Prop := NoDup (map fst z) /\ Forall entry_wf0 z.
+
+Lemma rest_wf_wf0 : forall z, rest_wf z -> rest_wf0 z.
 Proof.
-  intros z k e _. induction z as [|[k0 e0] r IH]; cbn [look]; [discriminate|].
+  intros z [Hnd Hf]. split; [exact Hnd|]. eapply Forall_impl; [|exact Hf].
+  intros [[[n t] c] [ttl ds]] (H1 & H2 & H3 & H4 & H5 & _). cbn. auto.
+Qed.
+
+Lemma rest_wf_look : forall z k e, look z k = Some e -> In (k, e) z.
+Proof.
+  intros z k e. induction z as [|[k0 e0] r IH]; cbn [look]; [discriminate|].
   destruct (key_eqb k k0) eqn:E.
   - apply key_eqb_eq in E. subst. intros H; inversion H; subst. left; reflexivity.
   - intros H. right. apply IH, H.
 Qed.
 
-Lemma rest_wf_entry : forall z k t ds, rest_wf z -> look z k = Some (t, ds) ->
+Lemma rest_wf0_entry : forall z k t ds, rest_wf0 z -> look z k = Some (t, ds) ->
   ds <> [] /\ ssorted ds /\ ttl_ok t /\ k <> soakey /\ 0 <= name_of_key k.
 Proof.
-  intros z k t ds Hwf Hl. pose proof (rest_wf_look z k _ Hwf Hl) as Hin.
+  intros z k t ds Hwf Hl. pose proof (rest_wf_look z k _ Hl) as Hin.
   destruct Hwf as [_ Hf]. rewrite Forall_forall in Hf. apply Hf in Hin.
-  destruct k as [[n ty] c]. cbn in Hin. destruct Hin as (Hn & Ht & Httl & Hne & Hs & Hsg).
+  destruct k as [[n ty] c]. cbn in Hin. destruct Hin as (Hn & Ht & Httl & Hne & Hs).
   split; [exact Hne|]. split; [exact Hs|]. split; [exact Httl|]. split; [|exact Hn].
   intros E. inversion E. subst. apply Ht. reflexivity.
 Qed.
 
-Lemma rest_wf_wf_oe : forall z k, rest_wf z -> wf_oe (look z k).
+Lemma rest_wf_entry : forall z k t ds, rest_wf z -> look z k = Some (t, ds) ->
+  ds <> [] /\ ssorted ds /\ ttl_ok t /\ k <> soakey /\ 0 <= name_of_key k.
+Proof. intros z k t ds Hwf. apply rest_wf0_entry, rest_wf_wf0, Hwf. Qed.
+
+Lemma rest_wf0_wf_oe : forall z k, rest_wf0 z -> wf_oe (look z k).
 Proof.
   intros z k Hwf. destruct (look z k) as [[t ds]|] eqn:E; [|exact Logic.I].
-  destruct (rest_wf_entry z k t ds Hwf E) as (H1 & H2 & _). split; assumption.
+  destruct (rest_wf0_entry z k t ds Hwf E) as (H1 & H2 & _). split; assumption.
+Qed.
+
+Lemma rest_wf_wf_oe : forall z k, rest_wf z -> wf_oe (look z k).
+Proof. intros z k Hwf. apply rest_wf0_wf_oe, rest_wf_wf0, Hwf. Qed.
+
+Lemma rest_wf0_no_soa : forall z, rest_wf0 z -> look z soakey = None.
+Proof.
+  intros z Hwf. destruct (look z soakey) as [[t ds]|] eqn:E; [|reflexivity].
+  destruct (rest_wf0_entry z soakey t ds Hwf E) as (_ & _ & _ & H & _). congruence.
 Qed.
 
 Lemma rest_wf_no_soa : forall z, rest_wf z -> look z soakey = None.
-Proof.
-  intros z Hwf. destruct (look z soakey) as [[t ds]|] eqn:E; [|reflexivity].
-  destruct (rest_wf_entry z soakey t ds Hwf E) as (_ & _ & _ & H & _). congruence.
-Qed.
+Proof. intros z Hwf. apply rest_wf0_no_soa, rest_wf_wf0, Hwf. Qed.
 
 (* The difference a -> b applied to a zone that agrees with a away from the SOA *)
+Lemma diff_apply0 : forall a b z, rest_wf0 a -> rest_wf0 b ->
+  (forall k, k <> soakey -> look z k = look a k) ->
+  exists z1, dels z (zminus a b) = Some z1 /\
+    look z1 soakey = look z soakey /\
+    (forall k, k <> soakey -> look z1 k = after_del (look a k) (look b k)) /\
+    forall soa_e k, look (adds (zput soakey soa_e z1) (zminus b a)) k =
+                    if key_eqb k soakey then Some soa_e else look b k.
+Proof.
+  intros a b z Ha Hb Hz.
+  destruct (dels_entries (sel_minus b) a z) as [z1 [Hd Hl]].
+  { destruct Ha; assumption. }
+  { intros k t Sa Hin. assert (Hla : look a k = Some (t, Sa)) by (apply look_in; [destruct Ha|]; assumption).
+    destruct (rest_wf0_entry a k t Sa Ha Hla) as (_ & Hs & _ & Hk & _).
+    split; [rewrite Hz; assumption|]. unfold sel_minus. cbn [fst snd]. split.
+    - apply ssorted_NoDup, filter_sorted, Hs.
+    - intros x Hx. apply filter_In in Hx. tauto. }
+  assert (Hz1 : forall k, k <> soakey -> look z1 k = after_del (look a k) (look b k)).
+  { intros k Ek. rewrite Hl. unfold after_del, sel_minus. destruct (look a k) as [[t Sa]|] eqn:Ea; cbn [fst snd].
+    - reflexivity.
+    - rewrite Hz, Ea by assumption. reflexivity. }
+  exists z1. split; [rewrite zminus_sel; exact Hd|]. split.
+  { rewrite Hl, (rest_wf0_no_soa a Ha). reflexivity. }
+  split; [exact Hz1|].
+  intros soa_e k. rewrite zminus_sel, look_adds_entries by (destruct Hb; assumption).
+  rewrite look_zput. destruct (key_eqb k soakey) eqn:Ek.
+  - apply key_eqb_eq in Ek. subst k. rewrite (rest_wf0_no_soa b Hb). reflexivity.
+  - apply key_eqb_neq in Ek.
+    pose proof (entry_patch (look a k) (look b k) (rest_wf0_wf_oe a k Ha) (rest_wf0_wf_oe b k Hb)) as P.
+    rewrite (Hz1 k Ek). unfold after_add in P. destruct (look b k) as [[t' Sb]|] eqn:Eb.
+    + unfold sel_minus. cbn [fst snd]. exact P.
+    + exact P.
+Qed.
+
 Lemma diff_apply : forall a b z, rest_wf a -> rest_wf b ->
   (forall k, k <> soakey -> look z k = look a k) ->
   exists z1, dels z (zminus a b) = Some z1 /\
@@ -265,25 +320,6 @@ Lemma diff_apply : forall a b z, rest_wf a -> rest_wf b ->
                     if key_eqb k soakey then Some soa_e else look b k.
 Proof.
   intros a b z Ha Hb Hz.
-  destruct (dels_entries (sel_minus b) a z) as [z1 [Hd Hl]].
-  { destruct Ha; assumption. }
-  { intros k t Sa Hin. assert (Hla : look a k = Some (t, Sa)) by (apply look_in; [destruct Ha|]; assumption).
-    destruct (rest_wf_entry a k t Sa Ha Hla) as (_ & Hs & _ & Hk & _).
-    split; [rewrite Hz; assumption|]. unfold sel_minus. cbn [fst snd]. split.
-    - apply ssorted_NoDup, filter_sorted, Hs.
-    - intros x Hx. apply filter_In in Hx. tauto. }
-  exists z1. split; [rewrite zminus_sel; exact Hd|]. split.
-  { rewrite Hl, (rest_wf_no_soa a Ha). reflexivity. }
-  intros soa_e k. rewrite zminus_sel, look_adds_entries by (destruct Hb; assumption).
-  rewrite look_zput. destruct (key_eqb k soakey) eqn:Ek.
-  - apply key_eqb_eq in Ek. subst k. rewrite (rest_wf_no_soa b Hb). reflexivity.
-  - apply key_eqb_neq in Ek.
-    pose proof (entry_patch (look a k) (look b k) (rest_wf_wf_oe a k Ha) (rest_wf_wf_oe b k Hb)) as P.
-    assert (Hz1 : look z1 k = after_del (look a k) (look b k)).
-    { rewrite Hl. unfold after_del, sel_minus. destruct (look a k) as [[t Sa]|] eqn:Ea; cbn [fst snd].
-      - reflexivity.
-      - rewrite Hz, Ea by assumption. reflexivity. }
-    rewrite Hz1. unfold after_add in P. destruct (look b k) as [[t' Sb]|] eqn:Eb.
-    + unfold sel_minus. cbn [fst snd]. exact P.
-    + exact P.
+  destruct (diff_apply0 a b z (rest_wf_wf0 _ Ha) (rest_wf_wf0 _ Hb) Hz) as (z1 & H1 & H2 & _ & H4).
+  exists z1. auto.
 Qed.
